@@ -5,6 +5,7 @@ package main
 import (
 	"fmt"
 	"go/ast"
+	"go/constant"
 	"go/token"
 	"go/types"
 	"sort"
@@ -166,7 +167,206 @@ func (g *gidx) boundAt(v ssa.Value, blk *ssa.BasicBlock) (int64, string) {
 			}
 		}
 	}
+	// a length is an integer: lengths ruled out one by one (switch len(v) { case 0, 1, 2: return }) raise the bound
+	for n := 0; n < 16 && excluded(facts, lb); n++ {
+		lb++
+		src = "dominating guards exclude every shorter length"
+	}
+	if b, why, ok := keyedBound(v, blk); ok && b > lb {
+		lb, src = b, why
+	}
 	return lb, src
+}
+
+// keyedBound: a dominating guard compares len(v) with a helper of the module that maps a string key to the
+// number of fields that key needs (len(fields) < metaFields(name)), and on every path into blk the key has been
+// found equal to a constant. The bound is the smallest value the helper returns for those constants.
+func keyedBound(v ssa.Value, blk *ssa.BasicBlock) (int64, string, bool) {
+	isLen := lenOf(v)
+	for d := blk.Idom(); d != nil; d = d.Idom() {
+		ifi, ok := d.Instrs[len(d.Instrs)-1].(*ssa.If)
+		if !ok {
+			continue
+		}
+		bo, ok := ifi.Cond.(*ssa.BinOp)
+		if !ok {
+			continue
+		}
+		op := bo.Op
+		var other ssa.Value
+		switch {
+		case isLen(bo.X):
+			other = bo.Y
+		case isLen(bo.Y):
+			other = bo.X
+			op = flipOp(op)
+		default:
+			continue
+		}
+		call, ok := other.(*ssa.Call)
+		if !ok {
+			continue
+		}
+		h := call.Call.StaticCallee()
+		if h == nil || !inModule(h) || h.Blocks == nil || len(h.Params) != 1 || len(call.Call.Args) != 1 || !isStringType(h.Params[0].Type()) {
+			continue
+		}
+		switch forcedEdge(d, blk) {
+		case 0:
+		case 1:
+			op = negateOp(op)
+		default:
+			continue
+		}
+		if op != token.GEQ && op != token.GTR {
+			continue
+		}
+		keys, ok := stringsAt(blk, call.Call.Args[0], 0)
+		if !ok || len(keys) == 0 {
+			continue
+		}
+		min := int64(-1)
+		for _, k := range keys {
+			n, ok := evalKeyed(h, k)
+			if !ok {
+				min = -1
+				break
+			}
+			if op == token.GTR {
+				n++
+			}
+			if min < 0 || n < min {
+				min = n
+			}
+		}
+		if min >= 0 {
+			return min, fmt.Sprintf("dominating guard len %s %s(key) and %s returns >= %d for the key(s) %q this path has matched", op, h.Name(), h.Name(), min, keys), true
+		}
+	}
+	return 0, "", false
+}
+
+func isStringType(t types.Type) bool {
+	b, ok := t.Underlying().(*types.Basic)
+	return ok && b.Info()&types.IsString != 0
+}
+
+func constString(v ssa.Value) (string, bool) {
+	k, ok := v.(*ssa.Const)
+	if !ok || k.Value == nil || k.Value.Kind() != constant.String {
+		return "", false
+	}
+	return constant.StringVal(k.Value), true
+}
+
+// stringsAt: the constants x has been found equal to on every path into blk.
+func stringsAt(blk *ssa.BasicBlock, x ssa.Value, depth int) ([]string, bool) {
+	if depth > 12 {
+		return nil, false
+	}
+	eq := func(cond ssa.Value) (string, bool) {
+		bo, ok := cond.(*ssa.BinOp)
+		if !ok || bo.Op != token.EQL {
+			return "", false
+		}
+		if bo.X == x {
+			return constString(bo.Y)
+		}
+		if bo.Y == x {
+			return constString(bo.X)
+		}
+		return "", false
+	}
+	for d := blk.Idom(); d != nil; d = d.Idom() {
+		if ifi, ok := d.Instrs[len(d.Instrs)-1].(*ssa.If); ok {
+			if k, ok := eq(ifi.Cond); ok && forcedEdge(d, blk) == 0 {
+				return []string{k}, true
+			}
+		}
+	}
+	if len(blk.Preds) == 0 {
+		return nil, false
+	}
+	var out []string
+	for _, p := range blk.Preds {
+		if ifi, ok := p.Instrs[len(p.Instrs)-1].(*ssa.If); ok && p.Succs[0] == blk && p.Succs[1] != blk {
+			if k, ok := eq(ifi.Cond); ok {
+				out = append(out, k)
+				continue
+			}
+		}
+		if p.Dominates(blk) && len(blk.Preds) == 1 {
+			// a straight-line predecessor: whatever held there
+			ks, ok := stringsAt(p, x, depth+1)
+			if !ok {
+				return nil, false
+			}
+			out = append(out, ks...)
+			continue
+		}
+		if blk.Dominates(p) {
+			return nil, false // a loop
+		}
+		ks, ok := stringsAt(p, x, depth+1)
+		if !ok {
+			return nil, false
+		}
+		out = append(out, ks...)
+	}
+	return out, true
+}
+
+// evalKeyed runs a helper whose only branches compare its string parameter with constants.
+func evalKeyed(h *ssa.Function, key string) (int64, bool) {
+	prm := h.Params[0]
+	var prev *ssa.BasicBlock
+	b := h.Blocks[0]
+	for steps := 0; steps < 256; steps++ {
+		switch last := b.Instrs[len(b.Instrs)-1].(type) {
+		case *ssa.If:
+			bo, ok := last.Cond.(*ssa.BinOp)
+			if !ok || (bo.Op != token.EQL && bo.Op != token.NEQ) {
+				return 0, false
+			}
+			var k string
+			switch {
+			case bo.X == ssa.Value(prm):
+				k, ok = constString(bo.Y)
+			case bo.Y == ssa.Value(prm):
+				k, ok = constString(bo.X)
+			default:
+				ok = false
+			}
+			if !ok {
+				return 0, false
+			}
+			taken := (k == key) == (bo.Op == token.EQL)
+			prev = b
+			if taken {
+				b = b.Succs[0]
+			} else {
+				b = b.Succs[1]
+			}
+		case *ssa.Jump:
+			prev, b = b, b.Succs[0]
+		case *ssa.Return:
+			if len(last.Results) != 1 {
+				return 0, false
+			}
+			r := last.Results[0]
+			if phi, ok := r.(*ssa.Phi); ok && phi.Block() == b && prev != nil {
+				for i, p := range b.Preds {
+					if p == prev {
+						r = phi.Edges[i]
+					}
+				}
+			}
+			return constIntVal(r)
+		default:
+			return 0, false
+		}
+	}
+	return 0, false
 }
 
 // helperBound: v is one result of a module helper that splits a line and
